@@ -434,7 +434,9 @@ def gen_c12(rng, profile):
     has_default = {root: root_has_default}
 
     def new_variant():
-        parent = r.choice(hier)["name"] if r.random() < 0.45 else root
+        plain_parents = [c for c in hier if "u" not in (c.get("cvars") or {})
+                         and c["name"] not in nested]
+        parent = r.choice(plain_parents)["name"] if r.random() < 0.45 else root
         vn = name("V")
         vc = {"name": vn, "bases": [parent], "mixins": [], "fields": []}
         dflt = has_default[parent] or style == "literal"
@@ -456,8 +458,10 @@ def gen_c12(rng, profile):
 
     def new_holder():
         hn = name("H")
-        base = r.choice(hier)["name"] if r.random() < 0.25 else root
-        if style == "cvar" and r.random() < 0.35:
+        okb = [c["name"] for c in hier if c["name"] not in nested
+               and "u" not in (c.get("cvars") or {})]
+        base = r.choice(okb) if r.random() < 0.25 else root
+        if style == "cvar" and not nested and r.random() < 0.35:
             d = {"field": None, "sub": True, "sup": r.random() < 0.7, "tagger": None}
         else:
             d = {"field": "t", "sub": r.random() < 0.9, "sup": r.random() < 0.35,
@@ -482,7 +486,9 @@ def gen_c12(rng, profile):
         if not cfg_discr and len(hier) > 1 and r.random() < 0.3:
             # a second discriminated position on the same holder, same settings,
             # other base: registries of two dispatchers must stay separate
-            other = r.choice([c["name"] for c in hier if c["name"] != base])
+            other = r.choice([c["name"] for c in hier if c["name"] != base
+                              and c["name"] not in nested
+                              and "u" not in (c.get("cvars") or {})] or [root])
             d2 = dict(d)
             if d2.get("field") and r.random() < 0.5:
                 d2["tagger"] = r.choice([t_ for t_ in (None, "name", "list") if t_ != d.get("tagger")])
@@ -493,10 +499,35 @@ def gen_c12(rng, profile):
             hc["cfg"] = c
         return hc
 
+    nested = {}   # second-level: variant -> list of its 'u'-tagged sub-variants
+
+    def new_subvariant(parent):
+        wn = name("W")
+        wc = {"name": wn, "bases": [parent], "mixins": [], "cvars": {"u": wn.lower()},
+              "fields": [{"n": f"{wn.lower()}_0", "t": ["int"], "d": ["i", 3]}]}
+        has_default[wn] = True
+        nested[parent].append(wn)
+        hier.append(wc)
+        return wc
+
     chunks = [[rc]]
     first = chunks[0]
     for _ in range(r.randint(0, 2)):
         first.append(new_variant())
+    if style == "cvar" and len(hier) > 1 and r.random() < 0.25:
+        # a variant that is itself a dispatcher on another field: the outer
+        # discriminator selects it by 't', its own Config discriminator then
+        # selects one of its subclasses by 'u'
+        vcands = [c for c in hier[1:] if (c.get("cvars") or {}).get("t")]
+        if vcands:
+            vc2 = r.choice(vcands)
+            c2 = dict(vc2.get("cfg") or {})
+            c2["discriminator"] = {"field": "u", "sub": True, "sup": False, "tagger": None}
+            if dsup:
+                c2.setdefault("cgo", ["ADD_DIALECT_SUPPORT"])
+            vc2["cfg"] = c2
+            nested[vc2["name"]] = []
+            first.append(new_subvariant(vc2["name"]))
     holders = []
     if r.random() < 0.7:
         h = new_holder()
@@ -505,7 +536,9 @@ def gen_c12(rng, profile):
     for _ in range(r.randint(2, 5)):
         ch = []
         for _ in range(r.randint(1, 2)):
-            if r.random() < 0.75:
+            if nested and r.random() < 0.4:
+                ch.append(new_subvariant(r.choice(sorted(nested))))
+            elif r.random() < 0.75:
                 ch.append(new_variant())
             else:
                 h = new_holder()
@@ -533,6 +566,15 @@ def gen_c12(rng, profile):
                 continue
             doc[f["n"]] = r.choice([0, 1, 2, 5])
         tags = fam.tag(target, discr if discr.get("field") else None)
+        if "u" in (fam.cls(target).get("cvars") or {}):
+            # second level: outer tag of the dispatching parent, inner tag of the target
+            parent = fam.family_bases(target)[0]
+            tags = fam.tag(parent, discr if discr.get("field") else None)
+            w = r.random()
+            if w < 0.8:
+                doc["u"] = fam.cls(target)["cvars"]["u"]
+            elif w < 0.9:
+                doc["u"] = "nope"
         if discr.get("field"):
             y = r.random()
             if y < 0.1:
@@ -599,8 +641,10 @@ def gen_c12(rng, profile):
                 base = r.choice(codecs)
                 op = {k: base[k] for k in ("k", "id", "fmt", "dir", "shape")}
             else:
-                b = r.choice([v for v in all_variants if v in defined]) if r.random() < 0.2 else root
-                if style == "cvar" and r.random() < 0.3:
+                okv = [v for v in all_variants if v in defined and v not in nested
+                       and "u" not in (fam.cls(v).get("cvars") or {})]
+                b = r.choice(okv) if r.random() < 0.2 and okv else root
+                if style == "cvar" and not nested and r.random() < 0.3:
                     d = {"field": None, "sub": True, "sup": r.random() < 0.7, "tagger": None}
                 else:
                     d = {"field": "t", "sub": True, "sup": r.random() < 0.35,
@@ -678,6 +722,10 @@ def c12_model(fam, defined, base, discr, doc):
         target = hits[-1] if len(set(hits)) > 1 else hits[0]
         if len(set(hits)) > 1:
             return ("skip",)
+        d2 = fam.own_cfg(target).get("discriminator")
+        if d2 and d2.get("field") != discr.get("field"):
+            # the selected class dispatches again on its own field
+            return c12_model(fam, defined, target, d2, doc)
         exp = c12_accepts(fam, target, doc)
         if isinstance(exp, str):
             return ("exc", exp)
